@@ -173,7 +173,7 @@ var errMember = errors.New("member fails")
 
 // ExecuteFast and ExecuteRace leave the members that lost blocked forever on an unbuffered channel (C17's subject).
 // The race detector supports at most 8128 live goroutines, so a program uses them only a few times.
-const maxLeakyExec = 5
+const maxLeakyExec = 3
 
 func buildGroup(rng *vk.Rand, nOps int) *Prog {
 	p := newProg("group", rng, rng.Range(4, 12), 1)
